@@ -630,7 +630,7 @@ impl Runner {
             let gj = json!({"cb": geom.cb, "ro": geom.ro, "bsb": geom.bsb, "bpc": geom.bpc(),
                 "vblocks": if sc.format_only {0} else {geom.vblocks()}, "vclusters": if sc.format_only {0} else {geom.vclusters()}, "l2n": geom.l2n(),
                 "rbn": geom.rbn(), "epb": geom.bs()/8, "rpb": (geom.bs()*8) >> geom.ro,
-                "bsz": geom.bs(), "vszb": geom.vsize >> 9});
+                "bsz": geom.bs(), "vszb": crate::decode::small(geom.vsize >> 9)});
             s.push(json!({"e":"Reset","name": sc.name, "g": gj, "devs": devs, "init": toks, "btok": btok, "maxb": 0,
                 "src": match &sc.images[0] { ImageSrc::Format{..} | ImageSrc::File{..} => "format", _ => "build" },
                 "bound": sc.bound_clusters * geom.bpc(),
